@@ -20,6 +20,7 @@
  *   vector ops: insert:K  remove:K  find:K  contains:K  count  iterate  to_array
  *   map    ops: set:K:V  get:K  remove:K  has_key:K  has_value:V  count  get_keys  get_values
  *               get_pairs  iterate
+ *               set_pv:K:A:B                 -- set(K, objpair(A, B)): a value whose order is coarser than its content, shown as AzB
  *               newpair                      -- spif_objpair_new() + del of an empty pair, prints '-'
  *               mutk:T  mutv:T  delk  delv   -- act on the CALLER's key / value object of the most
  *                                               recent `set` (change its text / delete it); no-ops
@@ -206,6 +207,18 @@ static int seen_all_once(void)
 static void pt(spif_obj_t p)
 {
     if (!p) { putchar('_'); return; }
+    if (SPIF_OBJ_IS_OBJPAIR(p)) {
+        /* a pair as a map VALUE (set_pv): shown as <A>z<B>; pairs order by their first member only, so two such values can
+         * compare equal and still be different values */
+        spif_objpair_t q = SPIF_OBJPAIR(p);
+        if (!q->key || !q->value || SPIF_OBJ_CLASS(q->key) != SPIF_CLASS(SPIF_STRCLASS_VAR(str)) ||
+            SPIF_OBJ_CLASS(q->value) != SPIF_CLASS(SPIF_STRCLASS_VAR(str))) { putchar('?'); return; }
+        fputs((const char *) SPIF_STR_STR(SPIF_STR(q->key)), stdout);
+        putchar('z');
+        fputs((const char *) SPIF_STR_STR(SPIF_STR(q->value)), stdout);
+        if (p == ck || p == cv) putchar('!');
+        return;
+    }
     if (SPIF_OBJ_CLASS(p) != SPIF_CLASS(SPIF_STRCLASS_VAR(str))) { putchar('?'); return; }
     fputs((const char *) SPIF_STR_STR(SPIF_STR(p)), stdout);
     if (p == ck || p == cv) putchar('!');
@@ -523,8 +536,18 @@ static int do_map_op(spif_obj_t c, int na, char **a)
         ck = mk_str(a[1]); cv = mk_str(a[2]);
         pb(SPIF_MAP_SET(c, ck, cv));
     }
+    else if (IS("set_pv") && na == 4) {
+        /* the value is a pair <A, B> of the caller's: the map stores a value that compares by A alone */
+        spif_obj_t ka, vb;
+        drop_caller();
+        ck = mk_str(a[1]);
+        ka = mk_str(a[2]); vb = mk_str(a[3]);
+        cv = SPIF_OBJ(spif_objpair_new_from_both(ka, vb));
+        SPIF_OBJ_DEL(ka); SPIF_OBJ_DEL(vb);
+        pb(SPIF_MAP_SET(c, ck, cv));
+    }
     else if (IS("mutk") && na == 2) { if (ck) retext(ck, a[1]); putchar('-'); }
-    else if (IS("mutv") && na == 2) { if (cv) retext(cv, a[1]); putchar('-'); }
+    else if (IS("mutv") && na == 2) { if (cv) retext(SPIF_OBJ_IS_OBJPAIR(cv) ? SPIF_OBJPAIR(cv)->value : cv, a[1]); putchar('-'); }
     else if (IS("delk") && na == 1) { if (ck) { SPIF_OBJ_DEL(ck); ck = NULL; } putchar('-'); }
     else if (IS("delv") && na == 1) { if (cv) { SPIF_OBJ_DEL(cv); cv = NULL; } putchar('-'); }
     else if (IS("newpair") && na == 1) {
